@@ -114,6 +114,8 @@ class FitYamlWriter(YamlWriterMixin, FitDReprBase):
 
         _yaml_doc["minimizer"] = fit._minimizer
         _yaml_doc["minimizer_kwargs"] = fit._minimizer_kwargs
+        if _type != "custom":
+            _yaml_doc["dynamic_error_algorithm"] = fit.dynamic_error_algorithm
 
         _yaml_doc["parameter_constraints"] = [
             ConstraintYamlWriter._make_representation(_parameter_constraint) for _parameter_constraint in fit.parameter_constraints
@@ -218,10 +220,13 @@ class FitYamlReader(YamlReaderMixin, FitDReprBase):
         _minimizer_kwargs = yaml_doc.pop("minimizer_kwargs", None)
         # change fit kwargs for different fit types if necessary
         _fit_kwargs = dict(minimizer=_minimizer, minimizer_kwargs=_minimizer_kwargs)
+        _dynamic_error_algorithm = yaml_doc.pop("dynamic_error_algorithm", None)
         if _cost_function is not None:
             _fit_kwargs["cost_function"] = _cost_function
         if _fit_type != "custom":
             _fit_object = _class(_data, _read_model_function, **_fit_kwargs)
+            if _dynamic_error_algorithm is not None:
+                _fit_object.dynamic_error_algorithm = _dynamic_error_algorithm
         else:
             _fit_object = _class(**_fit_kwargs)
             _par_formatters = yaml_doc.pop("parameter_formatters", None)
